@@ -186,6 +186,9 @@ type EntryRec struct {
 // Registry maps CID strings to small integers (first sight order) and digests
 // to small integers, across all executions of one process.
 type Registry struct {
+	// Base is subtracted from every clock time before it is written to a trace: a run whose logs start at a large
+	// clock (LogOptions.Clock) is the translation of a run starting at 0, and the checker's integers are 32-bit
+	Base  int
 	mu    sync.Mutex
 	pool  *Pool
 	ids   map[string]int
@@ -257,7 +260,7 @@ func (g *Registry) observe(e iface.IPFSLogEntry, genuine bool) int {
 	rec.Seen = true
 	if clk := e.GetClock(); clk != nil {
 		rec.W = g.pool.RankOfKey(clk.GetID())
-		rec.T = clk.GetTime()
+		rec.T = clk.GetTime() - g.Base
 	}
 	rec.Lid = e.GetLogID()
 	rec.V = int(e.GetV())
@@ -422,6 +425,7 @@ type RepState struct {
 	Bad        []BadRec `json:"bad"`      // tampered copies this replica holds (ground truth from the script)
 	LDigs      []int    `json:"ldigs"`    // logical digest ids (all fields but the additional data) aligned with Ents
 	OrigDigs   []int    `json:"origdigs"` // logical digest id each entry of Ents had when it was first observed
+	OwnPure    bool     `json:"ownpure"`  // ground truth: this log itself only ever appended and merged without bound (from whatever source)
 	Mixed      bool     `json:"mixed"`    // ground truth: this log was built (NewLog with entries) on the entries of a log with another id
 	StrIDs     []int    `json:"strids"`   // ToString(): the entry of each line ...
 	StrDepth   []int    `json:"strdepth"` // ... and its indentation depth (number of entries FindChildren returned)
@@ -480,7 +484,7 @@ func Project(g *Registry, pool *Pool, l *ipfslog.IPFSLog, pure bool) RepState {
 		st.Nidx = append(st.Nidx, g.ID(c))
 	}
 	sort.Ints(st.Nidx)
-	st.Clk = l.Clock.GetTime()
+	st.Clk = l.Clock.GetTime() - g.Base
 	st.ClkW = pool.RankOfKey(l.Clock.GetID())
 	st.Len = l.Len()
 	st.Digs = []int{}
